@@ -835,6 +835,13 @@ def csv_to_merchants_content(csv_rules: List[Tuple]) -> str:
 
         match_expr = " and ".join(parts) if parts else "true"
 
+        if not category and not tags:
+            # A CSV row without category and tags never affected classification, and a
+            # rule needs one of them: leave it out instead of making the file unloadable
+            lines.append(f"# Skipped (no category, no tags): {merchant}")
+            lines.append("")
+            continue
+
         # Write rule block
         lines.append(f"[{merchant}]")
         lines.append(f"match: {match_expr}")
